@@ -45,6 +45,17 @@ META = {
    text="Generated (domain, problem, plan) -> triplets -> exported file -> Observation with and without the problem's object table: one component per action, same calls, same states (== both ways and text read-back), chained.",
    note="Deduced-objects mode only when every object occurs in the first state (documented precondition).",
    design="6/C10"),
+ "C12": dict(
+   technique="bounded-exhaustive + Hypothesis generation against exact rational arithmetic on the float inputs; one interpreter per EPSILON / NUMERIC_PRECISION configuration",
+   text="Expression trees evaluated through the direct API and through one-condition / one-effect actions must equal exact arithmetic (prefix operand order); = <= >= hold within the configured absolute tolerance and < > are strict, probed 0, 0.5, 1 and 2 tolerances apart at magnitudes 1, 1e3, 1e6; assign/increase/decrease; to_pddl(d) re-read by the library keeps structure, constants within half a unit of the last decimal and values when representable.",
+   note="Comparison pairs are single fluents/constants so the library's only float operation is an exact subtraction; computed expressions near a boundary are skipped.",
+   design="6/C12"),
+ "C13": dict(
+   technique="Hypothesis generation of polynomial / rational conditions; outputs re-read by the library and an independent reader and compared with the input by exact evaluation at rational points (scale-invariant, rounding-aware)",
+   text="For simplify_complex_numeric_expression, simplify_inequality (with elimination assumptions), simplify_equality, simplify_complex_numerical_pddl_expression and Precondition.print(should_simplify=True): output is binary-operator PDDL over the input's fluents accepted by the library's reader, and lhs-rhs of the output equals k times lhs-rhs of the input (k>0, or k!=0 for equalities) at 24 rational points satisfying the elimination equalities, within the rounding the requested digits allow; omitted conditions must be implied.",
+   note="Known finding K4 (a side that ends up without fluents is printed as None / a bare number; regex-based symbol extraction) judged against a model; inputs undefined on every point are skipped.",
+   design="6/C13"),
+
  "C14": dict(
    technique="bounded-exhaustive pairwise comparison over a small universe + Hypothesis generation; states built along independent routes; oracle = reference (fact set, fluent map) equality",
    text="Library == must coincide with reference equality for states built by the problem parser, the trajectory parser, direct construction in permuted order, copy and as successors; reflexive/symmetric; copies equal and independent under in-place mutation of containers, facts and fluents; serializations read back (independent reader and parse_state) as equal exactly for equal states; -0.0 == 0.0.",
